@@ -57,9 +57,10 @@ impl Ep {
         match entry {
             "turn_udp" => Ok(Ep::Turn(turn::Ep::build(false).await?)),
             "turn_tcp" => Ok(Ep::Turn(turn::Ep::build(true).await?)),
-            "dtls_server" => Ok(Ep::Dtls(dtls::Ep::build(false, false).await?)),
+            "dtls_server" => Ok(Ep::Dtls(dtls::Ep::build(false, false, false).await?)),
             // second concretisation of the pre-handshake phase: the client has been through a HelloVerifyRequest
-            "dtls_client" => Ok(Ep::Dtls(dtls::Ep::build(true, stays_pre && variant % 2 == 1).await?)),
+            // ... and of the mid-handshake phase: the server's largest message is being reassembled from fragments
+            "dtls_client" => Ok(Ep::Dtls(dtls::Ep::build(true, stays_pre && variant % 2 == 1, variant % 2 == 1).await?)),
             // the victim is the SCTP server in the first concretisation and the client in the second
             "sctp" => Ok(Ep::Sctp(sctp::Ep::build(variant % 2 == 1).await?)),
             "pc_sdp" => Ok(Ep::Pc(pc::Ep::build(false, pc::mode_for(tpl)).await?)),
